@@ -108,6 +108,7 @@ def run(chk, repo, tier):
     rets = returns(paths)
     new_ok = bool(rets)
     keep_ok = False
+    two_ok, two_seen = True, False
     for p in rets:
         ctor = [e for e in p.events if e.kind == 'call' and e.data.get('new') == SPEC and e.depth == 0]
         new_ok = new_ok and len(ctor) == 1 and p.ret == ctor[0].data['result']
@@ -126,8 +127,10 @@ def run(chk, repo, tier):
                 ok_i = b.get('wave') == nf.index(r, C(0)) and ic[0].bound.get('s1') == S('self') and \
                     ic[0].bound.get('s2') == S('other') and ic[0].bound.get('sampling') == S('sampling') and \
                     ic[0].bound.get('method') == S('method') and ic[0].bound.get('fill_value') == S('fill_value')
-                chk.ob('C13-e', 'D-flow', fu.key, 'two spectra: grid and values from _interp_common(self, other, ...)', ok_i,
-                       '', fu.loc(ic[0].node))
+                two_seen = True
+                two_ok = two_ok and ok_i
+    chk.ob('C13-e', 'D-flow', fu.key, 'two spectra: grid and values from _interp_common(self, other, ...)',
+           two_ok and two_seen, '', fu.loc())
     chk.ob('C13-e', 'D-flow', fu.key, 'returns a new Spectrum in the first operand\'s units', new_ok, '', fu.loc())
     chk.ob('C13-e', 'D-flow', fu.key, 'scalar/vector operand: wavelength grid unchanged, ufunc(self.value, other)', keep_ok, '', fu.loc())
 
